@@ -649,6 +649,7 @@ func (c *c02Ctx) staleOps() {
 			continue
 		}
 		if c.r.Intn(10) == 0 {
+			c.probe(x) // current durable state = baseline of the comparison
 			err := c.stale[x].ClearChanStatus(channeldb.ChanStatusCoopBroadcasted)
 			c.emit("T %s status=clear stale_lh=%d stale_rh=%d => %s\n", c02Name(x),
 				c.stale[x].LocalCommitment.CommitHeight, c.stale[x].RemoteCommitment.CommitHeight,
@@ -671,6 +672,7 @@ func (c *c02Ctx) borkedTail() {
 			}
 			h = oc
 		}
+		c.probe(x) // current durable state = baseline of the comparison
 		err := h.MarkBorked()
 		c.emit("T %s status=borked stale_lh=%d stale_rh=%d => %s\n", c02Name(x),
 			h.LocalCommitment.CommitHeight, h.RemoteCommitment.CommitHeight, c01ErrClass(err))
